@@ -102,6 +102,8 @@ fn policy_enc(o: &policy::POp) -> String {
     use policy::POp::*;
     match o {
         Alloc(k) => format!("a:{}", k),
+        AllocCyclic(k) => format!("y:{}", k),
+        GarbageHolding(k) => format!("h:{}", k),
         Free(k) => format!("f:{}", k),
         Garbage(k) => format!("g:{}", k),
         Buffer(k) => format!("b:{}", k),
@@ -122,6 +124,8 @@ fn policy_parse(s: &str) -> Vec<policy::POp> {
             let n: u8 = n.parse().expect("bad op");
             match c {
                 "a" => Alloc(n),
+                "y" => AllocCyclic(n),
+                "h" => GarbageHolding(n),
                 "f" => Free(n),
                 "g" => Garbage(n),
                 "b" => Buffer(n),
